@@ -331,3 +331,159 @@ theorem take_encodeAll : ∀ (ps : List Bytes) (k : Nat), ∃ (j : Nat) (t : Byt
         have := h4 (by simpa using hj)
         simp only [List.take_succ_cons, nsEncodeAll, List.length_append] at this ⊢
         omega
+
+/-! ## reading files with an arbitrary (damaged) tail -/
+
+/-- Whatever the reader meets, the items it already produced stay. -/
+theorem run_acc_prefix (max : Option Nat) : ∀ (fuel : Nat) (ctx : Ctx) (stream : List Bytes) (acc : List Bytes) (k : Nat),
+    ∃ extra, (nsBufRun max fuel ctx stream acc k).items = acc.reverse ++ extra := by
+  intro fuel
+  induction fuel with
+  | zero => intro ctx stream acc k; exact ⟨[], by simp [nsBufRun]⟩
+  | succ f ih =>
+    intro ctx stream acc k
+    simp only [nsBufRun]
+    rcases h : nsBufCall max ctx stream with ⟨st, ctx', s'⟩
+    cases st with
+    | eof => exact ⟨[], by simp⟩
+    | error e => exact ⟨[], by simp⟩
+    | needData => exact ih ctx' s' acc (k + 1)
+    | newItem p =>
+      obtain ⟨extra, he⟩ := ih ctx' s' (p :: acc) (k + 1)
+      exact ⟨p :: extra, by simp only [he]; simp⟩
+
+/-- The buffer parser in front of a complete valid frame followed by anything. -/
+theorem parse_cons (max : Option Nat) (buf flat p rest : Bytes) (hp : okPayload max p)
+    (he : buf ++ flat = nsEncode p ++ rest) :
+    (nsParseBuf max buf = .item p (nsEncode p).length ∧ (nsEncode p).length ≤ buf.length ∧
+        buf.drop (nsEncode p).length ++ flat = rest) ∨
+    (nsParseBuf max buf = .need ∧ buf.length < (nsEncode p).length) := by
+  by_cases hlen : (nsEncode p).length ≤ buf.length
+  · left
+    have : ∃ bs, buf = nsEncode p ++ bs ∧ rest = bs ++ flat := by
+      rcases List.append_eq_append_iff.mp he with ⟨as, h1, h2⟩ | ⟨bs, h1, h2⟩
+      · have hl := congrArg List.length h1
+        simp only [List.length_append] at hl
+        have has : as = [] := List.eq_nil_of_length_eq_zero (by omega)
+        subst has
+        exact ⟨[], by simpa using h1.symm, by simpa using h2.symm⟩
+      · exact ⟨bs, h1, h2⟩
+    obtain ⟨bs, h1, h2⟩ := this
+    refine ⟨?_, hlen, ?_⟩
+    · rw [h1]; exact nsParseBuf_frame max p bs hp.1 hp.2
+    · rw [h1]; simp [h2]
+  · right
+    refine ⟨?_, by omega⟩
+    rcases List.append_eq_append_iff.mp he with ⟨as, h1, _⟩ | ⟨bs, h1, _⟩
+    · apply nsParseBuf_proper_prefix max p buf as hp.1 hp.2 _ h1.symm
+      intro has; subst has; simp at h1; rw [h1] at hlen; omega
+    · have hl := congrArg List.length h1
+      simp only [List.length_append] at hl; omega
+
+/-- Complete valid frames `ps` followed by ANY bytes `t`: the reader delivers `ps` first, whatever it makes
+    of the rest (more items, an error, end-of-file). -/
+theorem run_frames_garbage (max : Option Nat) : ∀ (fuel : Nat) (buf : Bytes) (mr : Bool) (stream : List Bytes) (acc : List Bytes)
+    (k : Nat) (ps : List Bytes) (t : Bytes), (∀ p ∈ ps, okPayload max p) →
+    buf ++ stream.flatten = nsEncodeAll ps ++ t →
+    (mr = true → ∀ p ps', ps = p :: ps' → buf.length < (nsEncode p).length) →
+    runMeasure ⟨buf, mr, false⟩ stream < fuel →
+    ∃ extra, (nsBufRun max fuel ⟨buf, mr, false⟩ stream acc k).items = acc.reverse ++ ps ++ extra := by
+  intro fuel
+  induction fuel with
+  | zero => intro buf mr stream acc k ps t _ _ _ hm; omega
+  | succ f ih =>
+    intro buf mr stream acc k ps t hps he hmr hm
+    cases ps with
+    | nil =>
+      obtain ⟨extra, h⟩ := run_acc_prefix max (f + 1) ⟨buf, mr, false⟩ stream acc k
+      exact ⟨extra, by simpa using h⟩
+    | cons p ps' =>
+      have hp := hps p (by simp)
+      have key : ∀ (buf : Bytes) (stream : List Bytes),
+          buf ++ stream.flatten = nsEncodeAll (p :: ps') ++ t →
+          buf.length + stream.flatten.length + 2 * stream.length + 1 < f + 1 →
+          ∃ extra, (nsBufRun max (f + 1) ⟨buf, false, false⟩ stream acc k).items = acc.reverse ++ (p :: ps') ++ extra := by
+        intro buf stream he hm
+        simp only [nsBufRun, call_parse max buf stream]
+        simp only [nsEncodeAll, List.append_assoc] at he
+        rcases parse_cons max buf stream.flatten p (nsEncodeAll ps' ++ t) hp he with ⟨hit, hle, hd⟩ | ⟨hnd, hlt⟩
+        · simp only [hit]
+          have hl3 := nsEncode_length_ge p
+          obtain ⟨extra, h⟩ := ih (buf.drop (nsEncode p).length) false stream (p :: acc) (k + 1) ps' t
+            (fun x hx => hps x (by simp [hx])) hd (by intro h; cases h)
+            (by rw [runMeasure_mk, List.length_drop]; simp only [Bool.false_eq_true, if_false]; omega)
+          exact ⟨extra, by rw [h]; simp⟩
+        · simp only [hnd]
+          exact ih buf true stream acc (k + 1) (p :: ps') t hps (by simpa [nsEncodeAll, List.append_assoc] using he)
+            (fun _ q qs hq => by cases hq; exact hlt)
+            (by rw [runMeasure_mk]; simp only [if_true]; omega)
+      rw [runMeasure_mk] at hm
+      cases mr with
+      | false => exact key buf stream he (by simpa using hm)
+      | true =>
+        simp only [if_true] at hm
+        cases stream with
+        | nil =>
+          exfalso
+          have h1 := hmr rfl p ps' rfl
+          have h2 := congrArg List.length he
+          simp only [List.flatten_nil, List.append_nil, nsEncodeAll, List.length_append] at h2
+          omega
+        | cons c cs =>
+          rw [run_fill max f buf c cs acc k]
+          apply key _ cs
+          · simpa [List.append_assoc] using he
+          · rw [flatten_cons_length, List.length_cons] at hm
+            simp only [List.length_append]; omega
+
+theorem takeSome_append_some {α β : Type} (enc : α → β) (dec : β → Option α) (h : ∀ a, dec (enc a) = some a)
+    (l : List α) (r : List β) : takeSome (((l.map enc) ++ r).map dec) = l ++ takeSome (r.map dec) := by
+  induction l with
+  | nil => rfl
+  | cons a t ih => simp only [List.map_cons, List.cons_append, h, takeSome, ih]
+
+/-! ## exactness of ReplayLog on a well-formed directory -/
+
+/-- What the property wants replayed from position `p`: newer than `p` and visible to the peer's zone. -/
+def wanted (vis : Nat → Bool) (p : Int) (e : Entry) : Bool := !skipEntry vis p e
+
+/-- The records on disk are well formed for replay: strictly increasing timestamps in replay order, and
+    every rotated file is named after a second later than all its records (`int(lastTs)+1`). -/
+structure WF (dec : Bytes → Option Entry) (now : Int) (s : Sender) : Prop where
+  increasing : (fullView dec now s).Pairwise (fun a b => a.2.ts < b.2.ts)
+  named : ∀ f ∈ s.files, ∀ e ∈ entriesOf dec f.bytes, e.ts < f.name * usec
+
+
+theorem replay_pass_aux (vis : Nat → Bool) (p lp : Int) (xs : List (Int × Entry))
+    (hs : xs.Pairwise (fun a b => a.2.ts < b.2.ts)) :
+    msgsOf (replayEntries vis ⟨p, lp, [], 0⟩ xs).out = (xs.map (·.2)).filter (wanted vis p) := by
+  have := replayEntries_sorted vis xs ⟨p, lp, [], 0⟩ hs
+  simp only [msgsOf_nil, List.nil_append] at this
+  exact this
+
+theorem replay_exact_aux (dec : Bytes → Option Entry) (vis : Nat → Bool) (limit : Nat) (now dur p : Int) (s : Sender)
+    (hd : dur ≠ 0) (wf : WF dec now (openLog now s)) :
+    msgsOf (replay dec vis limit now dur p s).out = ((fullView dec now (openLog now s)).map (·.2)).filter (wanted vis p) ∧
+    (replay dec vis limit now dur p s).fuelOut = false := by
+  have hd' : (dur == 0) = false := by simp [hd]
+  simp only [replay, hd', Bool.false_eq_true, if_false]
+  have h := replayLoop_first_pass dec vis limit now (openLog now s) p
+  simp only at h
+  rw [h.1, h.2.2.1]
+  refine ⟨?_, rfl⟩
+  have hsub := view_sublist dec now p (openLog now s)
+  simp only [replayPass]
+  rw [replay_pass_aux vis p p _ (List.Pairwise.sublist hsub wf.increasing)]
+  -- the files dropped by `name ≥ peer_ts` contain nothing the filter would let through
+  simp only [view, fullView, List.map_append, List.filter_append]
+  congr 1
+  rw [List.filter_map, List.filter_map]
+  congr 1
+  apply filter_flatMap_filter
+  intro f hf hc x hx
+  simp only [decide_eq_false_iff_not, Int.not_le] at hc
+  obtain ⟨e, he, rfl⟩ := List.mem_map.mp hx
+  have hn := wf.named f ((mem_sortByName f _).mp hf) e he
+  simp only [Function.comp, wanted, skipEntry, Bool.not_eq_false', Bool.or_eq_true, decide_eq_true_eq]
+  left; omega
+
